@@ -50,6 +50,30 @@ static int check( const char* name, const std::vector< decl >& decls )
         const bool reported = rsp.size() >= 5 && rsp[ 0 ] == 0x07 && std::uint16_t( rsp[ 1 ] | rsp[ 2 ] << 8 ) == d.first && std::uint16_t( rsp[ 3 ] | rsp[ 4 ] << 8 ) == d.last;
         if ( reported != d.primary ) { std::printf( "REPRODUCED: %s: 'Discover Primary Service by Service UUID' for the UUID of the %s service 0x%04x..0x%04x: %s\n", name, d.primary ? "primary" : "secondary", d.first, d.last, reported ? "reported" : "not reported" ); return 1; }
     }
+
+    // the same two procedures restricted to every handle range start..end (C02: only services whose declaration handle lies inside the range)
+    const std::uint16_t top = decls.back().last + 2;
+    for ( std::uint16_t start = 1; start <= top; ++start ) for ( std::uint16_t end = start; end <= top; ++end ) {
+        std::vector< std::uint16_t > got;
+        for ( std::uint16_t from = start; from != 0 && from <= end; ) {
+            const auto rsp = request( srv, cd, { 0x10, std::uint8_t( from ), std::uint8_t( from >> 8 ), std::uint8_t( end ), std::uint8_t( end >> 8 ), 0x00, 0x28 } );
+            if ( rsp.empty() || rsp[ 0 ] != 0x11 ) break;
+            std::uint16_t last = 0;
+            for ( std::size_t p = 2; p + rsp[ 1 ] <= rsp.size(); p += rsp[ 1 ] ) { got.push_back( std::uint16_t( rsp[ p ] | rsp[ p + 1 ] << 8 ) ); last = std::uint16_t( rsp[ p + 2 ] | rsp[ p + 3 ] << 8 ); }
+            from = last == 0xffff ? 0 : last + 1;
+        }
+        std::vector< std::uint16_t > want;
+        for ( const auto& d : decls ) if ( d.primary && d.first >= start && d.first <= end ) want.push_back( d.first );
+        if ( got != want ) { std::printf( "REPRODUCED: %s: Read By Group Type <<Primary Service>> for the range 0x%04x..0x%04x reports %zu service(s)%s, %zu primary service declaration(s) lie in that range\n", name, start, end, got.size(),
+            !got.empty() && ( got.back() > end || got.front() < start ) ? " (one of them outside the range)" : "", want.size() ); return 1; }
+        for ( const auto& d : decls ) {
+            std::vector< std::uint8_t > req = { 0x06, std::uint8_t( start ), std::uint8_t( start >> 8 ), std::uint8_t( end ), std::uint8_t( end >> 8 ), 0x00, 0x28 }; req.insert( req.end(), d.uuid.begin(), d.uuid.end() );
+            const auto rsp = request( srv, cd, req );
+            const bool reported = rsp.size() >= 5 && rsp[ 0 ] == 0x07 && std::uint16_t( rsp[ 1 ] | rsp[ 2 ] << 8 ) == d.first;
+            const bool expected = d.primary && d.first >= start && d.first <= end;
+            if ( reported != expected ) { std::printf( "REPRODUCED: %s: Find By Type Value for the range 0x%04x..0x%04x and the UUID of the service at 0x%04x: %s\n", name, start, end, d.first, reported ? "reported" : "not reported" ); return 1; }
+        }
+    }
     return 0;
 }
 int main( int, char** )
@@ -62,6 +86,8 @@ int main( int, char** )
     if ( check< bluetoe::server< G, P1, S2, P3 > >( "server< primary, secondary, primary >", { { true, 1, 3, u1 }, { false, 4, 6, u2 }, { true, 7, 11, u3 } } ) ) return 1;
     if ( check< bluetoe::server< G, S4, P1, P3 > >( "server< secondary (128 bit), primary, primary >", { { false, 1, 3, u4 }, { true, 4, 6, u1 }, { true, 7, 11, u3 } } ) ) return 1;
     if ( check< bluetoe::server< G, P1, S4, P5 > >( "server< primary (16 bit), secondary (128 bit), primary (128 bit) >", { { true, 1, 3, u1 }, { false, 4, 6, u4 }, { true, 7, 9, u5 } } ) ) return 1;
+    using PG1 = bluetoe::service< bluetoe::attribute_handle< 0x10 >, bluetoe::service_uuid16< 0x1111 >, chr< 0xaaa1, &v1 > >; using PG2 = bluetoe::service< bluetoe::attribute_handle< 0x20 >, bluetoe::service_uuid16< 0x3333 >, chr< 0xaaa3, &v3 > >;
+    if ( check< bluetoe::server< G, PG1, PG2 > >( "server< primary at 0x10, primary at 0x20 >", { { true, 0x10, 0x12, u1 }, { true, 0x20, 0x22, u3 } } ) ) return 1;
     if ( check< bluetoe::server< G, P1, P3 > >( "server< primary, primary >", { { true, 1, 3, u1 }, { true, 4, 8, u3 } } ) ) return 1;
     std::printf( "not reproduced\n" );
     return 0;
